@@ -14,6 +14,12 @@ ENGINES = [
 NOTES = "Property-based testing and fuzzing only. See DESIGN.md. Known findings: /verif/known_findings.json."
 NOT_APPLICABLE = {}
 CHECKS = {
+    "C18": {
+        "text": "Exhaustive enumeration of all ordered pairs of the token vocabulary (38k inputs, both spacings, two indents) plus ~40k generated inputs per quick run (mutated samples, random vocabulary sequences, random layouts with empty/multi-line/interpolated strings, doc-strings, CRLF) through the guarded lexer hook; each accepted input is judged by a span/spelling/order/balance/round-trip oracle written against the source text, not against the lexer.",
+        "design_ref": "DESIGN.md section 6 C18",
+        "note": "Columns judged on ASCII inputs only; nominal width of synthetic tokens not judged; NL tokens need not be ordered among themselves. Uses the guarded hook mamba::verif_hooks::lex (re-export of the private tokenizer).",
+        "technique": "property-based testing: exhaustive pair enumeration + generated inputs against a positional/round-trip oracle (Hypothesis)",
+    },
     "C03": {
         "text": "Generated-input search for crashes and hangs: ~40k (quick) / ~1M (thorough) mutated, random and adversarial inputs per run through the real pipeline in an isolated worker; every panic, abort or confirmed CPU time-out is a violation. Absence is not established; the claim is 'no crash on everything generated within the stated size bounds'.",
         "design_ref": "DESIGN.md section 6 C03",
